@@ -329,12 +329,107 @@ def check_case(ctx, case, rng):
                                   case_detail(case, cfg=cfgd, value=model.clean(v), got=d, want=dm))
 
 
+def char_units(ctx, rng, n):
+    """char as a bit-field storage type next to uint8 / int8 / uint16 ones: a char unit is one byte of its own, its
+    fields are plain integers, both readers agree, default-constructed structures can be dumped.  Own bit-slicing
+    reference (packed mode)."""
+    sizes = {"uint8": 1, "char": 1, "int8": 1, "uint16": 2}
+    for it in range(n):
+        fields, rem, prev = [], 0, None
+        for j in range(rng.randint(2, 7)):
+            st = rng.choice(["uint8", "char", "char", "int8", "uint16"])
+            total = sizes[st] * 8
+            if st != prev or rem == 0:
+                rem = total
+            b = rng.randint(1, rem) if rng.random() < 0.7 else rem
+            fields.append((f"f{j}", st, b))
+            rem -= b
+            prev = st
+        text = "struct T { " + " ".join(f"{st} {nm} : {b};" for nm, st, b in fields) + " uint8 tail; };"
+        for endian in "<>":
+            # reference: units in order, each a fresh one when the type changes or the previous one is full
+            layout, off, cur = [], 0, None
+            for nm, st, b in fields:
+                total = sizes[st] * 8
+                if cur is None or cur[0] != st or cur[1] == 0:
+                    cur = [st, total, off]
+                    off += sizes[st]
+                used = total - cur[1]
+                layout.append((nm, cur[2], sizes[st], used, b))
+                cur[1] -= b
+            size = off + 1
+            data = bytes(rng.randrange(256) for _ in range(size))
+            want = {}
+            for nm, uo, us, used, b in layout:
+                unit = int.from_bytes(data[uo:uo + us], "little" if endian == "<" else "big")
+                shift = used if endian == "<" else us * 8 - used - b
+                want[nm] = (unit >> shift) & ((1 << b) - 1)
+            got = {}
+            for compiled in (True, False):
+                ctx.evaluation(("char-units", text, endian, compiled, data.hex()))
+                ctx.cell(f"char-units:{'compiled' if compiled else 'interpreted'}")
+                det = {"text": text, "endian": endian, "compiled": compiled, "data": data.hex(), "workload": "char-units"}
+                try:
+                    cs = lib.load(text, endian, False, compiled)
+                    if len(cs.T) != size:
+                        ctx.violation("char-units", "size-differs-from-unit-rule", dict(det, got=len(cs.T), want=size))
+                        continue
+                    o = cs.T(data)
+                    vals = {nm: int(getattr(o, nm)) for nm, *_ in layout}
+                    got[compiled] = vals
+                    if vals != want or int(o.tail) != data[-1]:
+                        ctx.violation("char-units", "values-differ-from-bit-slicing", dict(det, got=vals, want=want))
+                        continue
+                    full = all(sum(b for _n, uo2, _s, _u, b in layout if uo2 == uo) == us * 8 for _n, uo, us, _u, _b in layout)
+                    d = o.dumps()
+                    if len(d) != size or (full and d != data):
+                        ctx.violation("char-units", "dump-differs-from-input", dict(det, got=d.hex()))
+                        continue
+                    z = cs.T().dumps()
+                    if z != bytes(size):
+                        ctx.violation("char-units", "default-dump-is-not-all-zero", dict(det, got=z.hex()))
+                        continue
+                    ctx.event("char_units_checked")
+                except Exception as e:  # noqa: BLE001
+                    ctx.violation("char-units", f"char-bit-field-structure-raises:{type(e).__name__}",
+                                  dict(det, error=lib.exc_sig(e)))
+            if len(got) == 2 and got[True] != got[False]:
+                ctx.violation("char-units", "compiled-vs-interpreted", {"text": text, "endian": endian, "data": data.hex(),
+                                                                        "workload": "char-units"})
+
+
+def union_bits(ctx, rng):
+    """Bit-field members of a union: whatever unit rule applies there, a parsed value lies in [0, 2^bits)."""
+    for st, size in (("uint8", 1), ("uint16", 2), ("uint32", 4)):
+        for endian in "<>":
+            b1, b2 = rng.randint(1, size * 8 - 1), rng.randint(1, size * 8 - 1)
+            text = f"union U {{ {st} a : {b1}; {st} b : {b2}; }};"
+            raw = bytes([0xA5, 0xFF, 0x5A, 0xC3][:size])
+            ctx.evaluation(("union-bits", text, endian))
+            ctx.cell("union-bit-fields")
+            try:
+                cs = lib.load(text, endian, False, False)
+                u = cs.U(raw)
+                a, b = int(u.a), int(u.b)
+            except Exception as e:  # noqa: BLE001
+                ctx.event("union_bit_fields_rejected")   # refusing them is fine
+                continue
+            if not (0 <= a < (1 << b1) and 0 <= b < (1 << b2)):
+                ctx.violation("union-bits", "K8:bit-field-member-of-a-union-ignores-its-width",
+                              {"text": text, "endian": endian, "raw": raw.hex(), "a": a, "b": b, "workload": "union-bits"})
+            else:
+                ctx.event("union_bit_fields_in_range")
+
+
 def run(ctx):
     mon = BitMonitor(ctx)
     mon.install()
     try:
         exhaustive(ctx)
         straddles(ctx, ctx.rng("straddle"), 12 if not ctx.thorough else 150)
+        char_units(ctx, ctx.rng("char-units"), 10 if not ctx.thorough else 200)
+        if ctx.shard == 0:
+            union_bits(ctx, ctx.rng("union-bits"))
         for i in range(N_CASES[ctx.tier]):
             if ctx.out_of_time():
                 break
@@ -352,6 +447,15 @@ def run(ctx):
 
 
 def replay(ctx, detail):
+    if detail.get("workload") == "union-bits":
+        import random
+        union_bits(ctx, random.Random(0))
+        return
+    if detail.get("workload") == "char-units":
+        print(detail)
+        import random
+        char_units(ctx, random.Random(0), 200)
+        return
     if "text" not in detail:
         print("BitBuffer monitor event:", detail)
         ctx.violation("bitbuffer", "replayed-from-record", detail)
